@@ -185,4 +185,106 @@ theorem plan_runs (ws : List (Loc × B)) (hpw : ws.Pairwise NonNested) :
     · rw [htree, htree1]
       rfl
 
+/-! ### plain writes into an existing directory (the images half: one `mkdir`, then `write`s) -/
+
+/-- **one plain write**: all directories on the way exist, the destination is not a directory -/
+theorem write_runs (fs : FS B) (w : Loc × B) (hne : w.1 ≠ [])
+    (h1 : ∀ m, m <+: w.1.dropLast → m ≠ [] → isDir fs m = true) (h2 : isDir fs w.1 = false) :
+    runEffs [Eff.write (tC w.1) w.2] fs = (none, AbsFS.set fs w.1 (.file w.2)) ∧
+    treeOf (AbsFS.set fs w.1 (.file w.2)) = writeEntry (treeOf fs) w := by
+  obtain ⟨d, b⟩ := w
+  simp only at hne h1 h2 ⊢
+  rcases List.eq_nil_or_concat d with rfl | ⟨dd, s, rfl⟩
+  · exact absurd rfl hne
+  simp only [List.concat_eq_append] at hne h1 h2 ⊢
+  rw [List.dropLast_concat] at h1
+  have hw : writeFile fs (tC (dd ++ [s])) b = .ok (AbsFS.set fs (dd ++ [s]) (.file b)) :=
+    writeFile_normal_ok b h1 h2
+  refine ⟨by simp only [runEffs, runEff, hw], ?_⟩
+  funext q
+  unfold treeOf writeEntry
+  simp only
+  by_cases hq : q = dd ++ [s]
+  · subst hq
+    simp [node_set _ _ _ _ hne, conv]
+  · have hq' : ¬ dd ++ [s] = q := fun h => hq h.symm
+    rw [if_neg hq, node_set _ _ _ _ hne, if_neg hq']
+    by_cases hb : below q (dd ++ [s]) = true
+    · rw [if_pos hb]
+      unfold below at hb
+      simp only [Bool.and_eq_true, bne_iff_ne, ne_eq] at hb
+      have hpre : q <+: dd := by
+        have := prefix_dropLast (List.isPrefixOf_iff_prefix.1 hb.1) hb.2
+        rwa [List.dropLast_concat] at this
+      by_cases hq0 : q = []
+      · subst hq0; simp [node, conv]
+      · have := h1 q hpre hq0
+        rw [isDir_iff] at this
+        rw [this]; rfl
+    · rw [if_neg hb]
+
+/-- what a plain write needs of the file system -/
+def ReadyW (fs : FS B) (w : Loc × B) : Prop :=
+  w.1 ≠ [] ∧ (∀ m, m <+: w.1.dropLast → m ≠ [] → isDir fs m = true) ∧ isDir fs w.1 = false
+
+theorem readyW_set {fs : FS B} {a w : Loc × B} (hn : NonNested a w) (ha : a.1 ≠ []) (h : ReadyW fs w) :
+    ReadyW (AbsFS.set fs a.1 (.file a.2)) w := by
+  obtain ⟨h0, h1, h2⟩ := h
+  refine ⟨h0, ?_, ?_⟩
+  · intro m hm hm0
+    have hne : a.1 ≠ m := by
+      intro heq
+      have : a.1.isPrefixOf w.1 = true :=
+        List.isPrefixOf_iff_prefix.2 (heq ▸ hm.trans (List.dropLast_prefix _))
+      rw [hn.1] at this; simp at this
+    rw [isDir_iff, node_set _ _ _ _ ha, if_neg hne, ← isDir_iff]
+    exact h1 m hm hm0
+  · rw [← Bool.not_eq_true, isDir_iff, node_set _ _ _ _ ha]
+    by_cases heq : a.1 = w.1
+    · rw [if_pos heq]; simp
+    · rw [if_neg heq, ← isDir_iff, h2]; simp
+
+/-- a list of plain writes to pairwise non-nested destinations runs and leaves `writeAll`'s tree -/
+theorem writes_run (ws : List (Loc × B)) (hpw : ws.Pairwise NonNested) :
+    ∀ (fs : FS B), (∀ w ∈ ws, ReadyW fs w) →
+      ∃ fs', runEffs (ws.map fun w => Eff.write (tC w.1) w.2) fs = (none, fs') ∧
+        treeOf fs' = writeAll (treeOf fs) ws := by
+  induction ws with
+  | nil => intro fs _; exact ⟨fs, by simp [runEffs], rfl⟩
+  | cons w r ih =>
+    intro fs hready
+    have hp := List.pairwise_cons.1 hpw
+    obtain ⟨a0, a1, a2⟩ := hready w (List.mem_cons_self ..)
+    obtain ⟨hrun1, htree1⟩ := write_runs fs w a0 a1 a2
+    have hready1 : ∀ x ∈ r, ReadyW (AbsFS.set fs w.1 (.file w.2)) x :=
+      fun x hx => readyW_set (hp.1 x hx) a0 (hready x (List.mem_cons_of_mem _ hx))
+    obtain ⟨fs', hrun, htree⟩ := ih hp.2 _ hready1
+    refine ⟨fs', ?_, ?_⟩
+    · have : (w :: r).map (fun w => Eff.write (tC w.1) w.2) =
+          [Eff.write (tC w.1) w.2] ++ r.map (fun w => Eff.write (tC w.1) w.2) := rfl
+      rw [this, runEffs_append, hrun1]
+      exact hrun
+    · rw [htree, htree1]
+      rfl
+
+/-- creating the common parent directory first makes no difference to the tree the writes leave -/
+theorem writeAll_after_mkdir (T : Tree) (base : Loc) (ws : List (Loc × B)) (hne : ws ≠ [])
+    (hb : ∀ w ∈ ws, below base w.1 = true) :
+    writeAll (fun q => if q = base then some .dir else T q) ws = writeAll T ws := by
+  cases ws with
+  | nil => exact absurd rfl hne
+  | cons w r =>
+    unfold writeAll
+    simp only [List.foldl_cons]
+    congr 1
+    funext q
+    unfold writeEntry
+    have hbw := hb w (List.mem_cons_self ..)
+    by_cases hq : q = w.1
+    · simp [hq]
+    · rw [if_neg hq, if_neg hq]
+      by_cases hqb : q = base
+      · subst hqb; simp [hbw]
+      · simp [hqb]
+
 end StorePlan
